@@ -5,6 +5,7 @@ import Klev.Proofs.IndexSearch
 import Klev.Proofs.SearchTie
 import Klev.Proofs.SegSearch
 import Klev.Proofs.GetOK
+import Klev.Proofs.Witness
 namespace Klev.C04
 
 /-- **Refinement.** On every log state satisfying the invariant, for every offset, `Log.get`
@@ -42,6 +43,28 @@ theorem search_tie_get (items : List Item) (bases : List Int) (off : Int) :
   ⟨Klev.indexGet_tie items off, Klev.segGet_tie bases off⟩
 
 end Klev.C04
+
+/-! ### Non-vacuity: the theorems at the witness log `Witness.wL`, its derived index
+`Witness.wIdx` (offsets 0 1 2 4 5 6 8) and its segment bases `[0, 2, 5, 8]` -/
+section NonVacuity
+open Klev Klev.Witness
+
+example := Klev.C04.get_ok wL wL_inv 4
+example := Klev.C04.get_ok wL wL_inv 3
+example := Klev.C04.get_ok wL wL_inv offsetNewest
+example := Klev.C04.index_get_spec wIdx 5 wIdx_sortedOff
+example := Klev.C04.segment_get_spec (bases wL) 6 wL_bases_sorted (by decide) (by decide) (by decide)
+
+-- evaluated: a live message; the hole inside segment 2; the deleted tail of segment 5; not
+-- assigned yet; the two relative offsets; another negative offset
+example : (wL.get 4).2 = .ok ⟨4, 30, [6], []⟩ ∧ (wL.get 3).2 = .err .notFound ∧
+    (wL.get 7).2 = .err .notFound ∧ (wL.get 9).2 = .err .invalidOffset ∧
+    (wL.get offsetOldest).2 = .ok ⟨0, 10, [1], [1]⟩ ∧ (wL.get offsetNewest).2 = .ok ⟨8, 50, [2], [8]⟩ ∧
+    (wL.get (-5)).2 = .err .invalidOffset := by decide
+example : Index.get wIdx 5 = .ok 159 ∧ Index.get wIdx 3 = .error .notFound := by decide
+example : SegSearch.get (bases wL) 6 = .ok (.ok 2) := by decide
+
+end NonVacuity
 
 #print axioms Klev.C04.get_ok
 #print axioms Klev.C04.index_get_spec
